@@ -157,6 +157,8 @@ def run_batch(check, prop: str, tier: str, seed: int, runs: int, budget: float, 
         except Exception:
             agg["harness"].append("unparsable worker output: %r" % line[:200])
             continue
+        if ev.get("ev") == "hb":
+            continue
         if ev.get("ev") == "start":
             pr["cur"] = ev["r"]
         elif ev.get("ev") == "end":
